@@ -9,7 +9,7 @@ from . import extract
 from .core import Facts
 
 VERIF = extract.VERIF
-EVID = os.path.join(VERIF, "evidence")
+EVID = os.environ.get("VERIF_EVIDENCE_DIR") or os.path.join(VERIF, "evidence")
 REPLAY = os.path.join(EVID, "replay")
 
 
@@ -39,7 +39,15 @@ class Ctx:
             self._facts[config] = Facts(d)
             self.bodies_analysed[config] = len(d["bodies"])
         self.cur_config = config
+        if os.environ.get("VERIF_X") == "1":
+            from . import inline
+            return inline.xfacts(self._facts[config])
         return self._facts[config]
+
+    def xfacts(self, config):
+        """expanded view (bounded inlining of private helpers and closures + path-sensitive splitting), see sa/inline.py"""
+        from . import inline
+        return inline.xfacts(self.facts(config))
 
     def facts_dir(self, config):
         self.facts(config)
@@ -162,6 +170,11 @@ class Ctx:
             "wall_s": round(time.time() - self.t0, 2),
             "violations": new_viol,
         }
+        if os.environ.get("VERIF_DUMP_OBS"):
+            with open(os.environ["VERIF_DUMP_OBS"], "a") as fh:
+                for k in self.order:
+                    o = self.obs[k]
+                    fh.write("%s\t%s\t%s\n" % (self.pid, k, ",".join("%s=%s" % (c, v) for c, v in sorted(o["configs"].items()))))
         os.makedirs(EVID, exist_ok=True)
         with open(os.path.join(EVID, self.pid + ".json"), "w") as fh:
             json.dump(ev, fh, indent=1)
